@@ -315,9 +315,9 @@ def mon_C10(s):
         if status == "succeeded":
             out.append(V("succeeded after cancel", i))
         if status == "canceling" and not infl:
-            out.append(V("canceling with nothing in flight", i))
+            out.append(V("canceling with nothing in flight", i, region_of(s, i)))
         if status == "canceled" and infl:
-            out.append(V("canceled with actions in flight", i))
+            out.append(V("canceled with actions in flight", i, region_of(s, i)))
         if status not in ("canceling", "canceled", "failed"):
             out.append(V("status %s after cancel" % status, i))
         if status == "failed":
@@ -558,6 +558,10 @@ def mon_C15(s):
 
 def mon_C01(s):
     out = []
+    from harness import refsem
+    msg = refsem.check_success(s)
+    if msg:
+        out.append(V(msg, len(s["ops"]) - 1))
     td = tasks_def(s)
     roots = set(td) - set(d for t in s["def"]["tasks"] for tr in t["next"] for d in tr["do"])
     for i, (op, r) in enumerate(zip(s["ops"], s["replies"])):
